@@ -49,4 +49,5 @@ Definition params_digest_region (pkt : bytes) : option bytes :=
   end.
 
 (* well-formedness of inputs: the domain the wire format can carry *)
-Definition dur_wf (d : Z) : Prop := (0 <= d)%Z /\ (d mod 1000000 = 0)%Z /\ (d < two63z)%Z.
+(* a duration the wire format carries: whole milliseconds, any sign (negative values wrap through uint64 and back) *)
+Definition dur_wf (d : Z) : Prop := (d mod 1000000 = 0)%Z /\ (- two63z <= d < two63z)%Z.
